@@ -295,6 +295,7 @@ func c11Gen(t *rapid.T) c11Case {
 		Encodings:  []string{"quoted-printable", "base64", "8bit"}, MaxParts: 3, MaxEmbeds: 2, MaxAttach: 3, AllowNoBody: true,
 		PartEncs: []string{"", "", "quoted-printable", "base64", "8bit", "7bit"}, FileEncs: []string{"", "base64", "8bit", "7bit", "quoted-printable"},
 		Descriptions: true, Chunking: true,
+		Sources: []string{"reader", "readseeker", "file", "iofs", "texttpl", "htmltpl", "writer", "reader-pos", "reader-drain", "buffer-reuse", "readseeker-pos"},
 	}
 	sign := ""
 	if rapid.IntRange(0, 4).Draw(t, "signed") == 0 {
